@@ -197,6 +197,38 @@ fn well_formed(ops: &[Op]) -> bool {
     true
 }
 
+/// Operations whose code path depends on the flavour of the handle they are
+/// issued through (the others exist identically on both flavours or are
+/// reached through a borrowed `as_sync`/`as_async` view, which C09 covers).
+fn flavour_sensitive(o: &Op) -> bool {
+    matches!(o, Op::Send | Op::Recv | Op::NewHandle(..) | Op::DropHandle(_))
+}
+
+/// Drop programs that differ from another one only in the flavour of a thread
+/// none of whose operations depends on it.
+fn prune_flavours(ps: Vec<Program>) -> Vec<Program> {
+    let mut seen = std::collections::HashSet::new();
+    let mut out = Vec::new();
+    for p in ps {
+        let mut canon = p.clone();
+        canon.name.clear();
+        for t in canon.threads.iter_mut() {
+            if !t.ops.iter().any(flavour_sensitive) {
+                if t.s.is_some() {
+                    t.s = Some(S);
+                }
+                if t.r.is_some() {
+                    t.r = Some(S);
+                }
+            }
+        }
+        if seen.insert(canon) {
+            out.push(p);
+        }
+    }
+    out
+}
+
 pub const CAPS3: [Cap; 3] = [Cap::B(0), Cap::B(1), Cap::Unbounded];
 pub const CAPS4: [Cap; 4] = [Cap::B(0), Cap::B(1), Cap::B(2), Cap::Unbounded];
 
@@ -340,6 +372,18 @@ fn both_pars(spin: u8, preempt: Option<u8>) -> Vec<Env> {
 }
 
 pub fn suite(check: &str, thorough: bool) -> Suite {
+    let mut s = suite_inner(check, thorough);
+    // the heavy value / memory checks skip flavour assignments that cannot
+    // change the code path of any operation (only the Drop impl run at the end
+    // of the thread differs, which C06/C09/C10/C11/C12 cover with every
+    // assignment)
+    if ["C01", "C03", "C04", "C05", "C07", "C13"].contains(&check) {
+        s.programs = prune_flavours(s.programs);
+    }
+    s
+}
+
+fn suite_inner(check: &str, thorough: bool) -> Suite {
     match check {
         "C01" => c01(thorough),
         "C02" => c02(thorough),
@@ -1095,7 +1139,22 @@ fn c07(thorough: bool) -> Suite {
         classes,
         &all_flavours(2),
         &[(S, Conv::Clone)],
-        &[env(2, 1, None, UNB), env(1, 1, Some(0), UNB)],
+        &[env(2, 1, None, UNB)],
+        false,
+    ));
+    // the same hand-offs between sync endpoints with a spurious first park and
+    // reported parallelism 1
+    ps.extend(product(
+        "c07-11-sp",
+        &[
+            seqs(&[Op::Send, Op::SendT(1), Op::SendT(3), Op::SendOT(2), Op::TrySend, Op::Close(Side::S)], 1),
+            seqs(&[Op::Recv, Op::RecvT(1), Op::RecvT(3), Op::TryRecv, Op::Drain(VecState::Spare), Op::Close(Side::R)], 1),
+        ],
+        &[Cap::B(0), Cap::B(1)],
+        classes,
+        &if thorough { all_flavours(2) } else { sync_only(2) },
+        &[(S, Conv::Clone)],
+        &[env(1, 1, Some(0), UNB)],
         false,
     ));
     // scripted futures: waker replacement and drops at every point, racing
@@ -1825,7 +1884,11 @@ fn c14(thorough: bool) -> Suite {
 
 fn c15(thorough: bool) -> Suite {
     let mut ps = Vec::new();
-    let classes: &[Class] = if thorough { &[Class::D4, Class::DP, Class::DL] } else { &[Class::DP, Class::DL] };
+    let classes: &[Class] = if thorough {
+        &[Class::D4, Class::DP, Class::DL, Class::P, Class::L, Class::B3]
+    } else {
+        &[Class::DP, Class::DL, Class::P, Class::L]
+    };
     let fs = vec![
         vec![Op::FSend(0), Op::FDrop(0)],
         vec![Op::FSend(0), Op::Poll(0, 0), Op::FDrop(0)],
@@ -2041,11 +2104,11 @@ fn c19(thorough: bool) -> Suite {
     ps.extend(product(
         "c19-race",
         &[
-            seqs_upto(&[Op::Send, Op::TrySend, Op::SendT(2), Op::SendRepoll], 2),
+            seqs_upto(&[Op::Send, Op::TrySend, Op::SendT(2), Op::SendOT(2), Op::SendRepoll], 2),
             vs.iter().flat_map(|v| vec![vec![Op::Drain(*v)], vec![Op::Drain(*v), Op::Drain(VecState::Spare)], vec![Op::TryRecv, Op::Drain(*v)]]).collect(),
         ],
         &CAPS3,
-        &[Class::DL],
+        &[Class::DL, Class::DP, Class::B1],
         &sync_only(2),
         &[(S, Conv::Clone)],
         &[env(2, 1, None, pb2(thorough))],
@@ -2099,7 +2162,7 @@ fn c19(thorough: bool) -> Suite {
     let mut k = STUCK.to_vec();
     k.push(Kind::NoWait);
     Suite {
-        cfg: cfg(&[Oracle::Drain, Oracle::Outcome, Oracle::Linear, Oracle::DropOnce], &k, false, true),
+        cfg: cfg(&[Oracle::Drain, Oracle::Outcome, Oracle::Linear, Oracle::DropOnce, Oracle::Intact], &k, false, true),
         rule: "channel states built by a setup prefix (k buffered values + j pending async senders in known order, one cancelled; closed) x vector states {empty, spare capacity, pre-filled with sentinels and no spare capacity} x capacities {0,1,2,unbounded}; drain racing with blocked / timed / try senders; 3 threads; oracle: returned count = number appended, prefix untouched, order = buffer then senders oldest first, every drained sender reports success, closed => error and nothing appended, the call never waits for a peer".into(),
         programs: ps,
     }
